@@ -10,6 +10,7 @@ that left the node (SendMessageEvents) over the whole history, `persisted` recor
 the database at the moment it was posted.
 -/
 import YouVerif.C02.ProofsRun
+import YouVerif.C02.Legacy
 namespace YouVerif.C02.Props
 open YouVerif.C02
 
@@ -81,6 +82,43 @@ theorem context_monotone (c : Cache) (r i : Nat) :
   rcases updateContext_cases c r i with h | h
   · exact Or.inl h
   · exact Or.inr h.2
+
+/-- The repair does not change honest behaviour: whenever the requested context is not behind the VoteDB's own
+    (the only situation in an execution whose (round, index) moves forward), the repaired `UpdateContext` and
+    `alreadyVoted` answer exactly as the old ones did (old code: Legacy.lean). -/
+theorem fix_preserves_forward_behaviour (c : Cache) (r i : Nat)
+    (h : ∀ cr, c.round = some cr → (⟨cr, c.index⟩ : Ctx).le ⟨r, i⟩) :
+    Legacy.updateContext c r i = c.updateContext r i ∧ ∀ k, Legacy.alreadyVoted c k r i = c.alreadyVoted k r i := by
+  unfold Legacy.updateContext Cache.updateContext Legacy.alreadyVoted Cache.alreadyVoted
+  cases hr : c.round with
+  | none => simp
+  | some cr =>
+    have hle := h cr hr
+    unfold Ctx.le at hle
+    simp only at hle
+    constructor
+    · by_cases h1 : cr = r ∧ c.index = i
+      · have : cr > r ∨ cr = r ∧ c.index ≥ i := Or.inr ⟨h1.1, by omega⟩
+        simp [h1, this]
+      · have h2 : ¬ (cr > r ∨ cr = r ∧ c.index ≥ i) := by omega
+        have h3 : ¬ (some cr = some r ∧ c.index = i) := by simp; omega
+        rw [if_neg h3]
+        simp only [h2, if_false]
+    · intro k
+      have : ¬ cr > r := by omega
+      simp [this]
+
+/-- The property was FALSE of the VoteDB as it was before the `fix:` commits (model of the old code in Legacy.lean,
+    not tied to /repo any more): the four witnesses, each replayed on the real pre-fix code and kept in corpus/C02.
+    F-C02a restart lowers the index, F-C02b certificate record not restored, F-C02c stale index change without any
+    restart, F-C02d restore keeps the oldest context. -/
+theorem legacy_votedb_equivocated :
+    (∃ ops, Legacy.hashesIn (Legacy.run ops) .prevote 7 1 = [10, 11]) ∧
+    (∃ ops, Legacy.hashesIn (Legacy.run ops) .cert 2 1 = [5, 4]) ∧
+    (∃ ops, (∀ o ∈ ops, o ≠ Legacy.Op.restart) ∧ Legacy.hashesIn (Legacy.run ops) .prevote 7 2 = [10, 13]) ∧
+    (∃ ops, Legacy.hashesIn (Legacy.run ops) .prevote 5 1 = [10, 11]) :=
+  ⟨⟨_, Legacy.legacy_equivocates_after_restart⟩, ⟨_, Legacy.legacy_second_certificate_vote⟩,
+   ⟨_, by intro o ho; simp at ho; rcases ho with h | h | h | h | h <;> (subst h; simp), Legacy.legacy_equivocates_on_lowered_index⟩, ⟨_, Legacy.legacy_restore_keeps_oldest_context⟩⟩
 
 /-! ### non-vacuity: the theorems are not about an empty behaviour (tests on literals) -/
 
